@@ -116,6 +116,11 @@ def gen(tier, rng):
         yield build(rng, KINDS[i % len(KINDS)], i)
     for i in range(8 if tier == "quick" else 80):
         yield build(rng, RARE[i % 2], n + i)
+    # very long pipelines (a megabyte of tiny requests): implementation and oracle only
+    for ver in (b"2.0", b"3.0", b"1.1"):
+        s = (b"GET / HTTP/" + ver + b"\r\n\r\n") * 60000 + b"GET /after HTTP/1.1\r\nHost: h\r\n\r\n"
+        yield (cv_line(s, [action_str([], respond_str(200, b"ok", True))], extra="c14=1 nomodel=1 limit=20000"),
+               {"kind": "pipeline-60000-" + ver.decode()})
 
 
 def project(obs):
